@@ -508,10 +508,13 @@ func (r *Renderer) renderAutoLink(
 	_, _ = w.WriteString(`<a href="`)
 	url := n.URL(source)
 	label := n.Label(source)
-	if n.AutoLinkType == ast.AutoLinkEmail && !bytes.HasPrefix(bytes.ToLower(url), []byte("mailto:")) {
-		_, _ = w.WriteString("mailto:")
+	escapedURL := util.URLEscape(url, false)
+	if r.Unsafe || !IsDangerousURL(escapedURL) {
+		if n.AutoLinkType == ast.AutoLinkEmail && !bytes.HasPrefix(bytes.ToLower(url), []byte("mailto:")) {
+			_, _ = w.WriteString("mailto:")
+		}
+		_, _ = w.Write(util.EscapeHTML(escapedURL))
 	}
-	_, _ = w.Write(util.EscapeHTML(util.URLEscape(url, false)))
 	if n.Attributes() != nil {
 		_ = w.WriteByte('"')
 		RenderAttributes(w, n, LinkAttributeFilter)
